@@ -44,6 +44,7 @@ class FnSpec:
         self.opaque_body = None   # replace body entirely (only for trusted fns)
         self.overflow_tags = None
         self.nobroadcast = False
+        self.end = []       # text inserted before the closing brace of a body without tail expression
 
 
 class ModSpec:
@@ -148,6 +149,8 @@ def parse_vspec(path, name):
             cur_fn.attrs.append(arg)
         elif d == 'tags':
             cur_fn.tags = arg.split()
+        elif d == 'end':
+            cur_fn.end.append(arg)
         elif d == 'nobroadcast':
             cur_fn.nobroadcast = True
         elif d == 'overflow':
@@ -391,6 +394,25 @@ def enum_info(text, attrs):
         vals.append(nxt)
         nxt += 1
     return dict(width=width, values=vals)
+
+
+def auto_size(it, splicer):
+    fields = packed_fields(it.text[it.decl_off - it.start:])
+    if not fields:
+        return None
+    parts = []
+    for (n, t) in fields:
+        if t in PRIM:
+            parts.append(str(PRIM[t]))
+        else:
+            m = re.match(r'\[u8;\s*(\d+)\]$', t)
+            if m:
+                parts.append(m.group(1))
+            elif re.match(r'[A-Za-z_][A-Za-z0-9_:]*$', t):
+                parts.append('%s::size_spec()' % t)
+            else:
+                return None
+    return ' + '.join(parts)
 
 
 def auto_default(text, splicer):
@@ -848,6 +870,7 @@ class Splicer:
                     out = self._deferred_out = getattr(self, '_deferred_out', None) or Deferred()
                 if had_ib:
                     raw = ms.raw.get(it.name)
+                    en = None
                     if it.kind == 'enum':
                         en = enum_info(it.text[it.decl_off - it.start:], attrs)
                         if en is not None:
@@ -860,11 +883,13 @@ class Splicer:
                         if raw is not None:
                             self.packed.append(dict(module=mod, name=it.name, fields=packed_fields(it.text[it.decl_off - it.start:])))
                             out.count('D2 raw() derived from the repr(C, packed) field order')
+                    size = auto_size(it, self) if it.kind == 'struct' else (('%d' % en['width']) if (it.kind == 'enum' and en is not None) else None)
+                    size_item = ('open spec fn size_spec() -> nat { %s }' % size) if size else 'uninterp spec fn size_spec() -> nat;'
                     if raw is None:
-                        out.emit('impl IntoBytes for %s { uninterp spec fn raw(&self) -> Seq<u8>; #[verifier::external_body] fn as_bytes(&self) -> &[u8] { unimplemented!() } }' % it.name)
+                        out.emit('impl IntoBytes for %s { uninterp spec fn raw(&self) -> Seq<u8>; %s #[verifier::external_body] fn as_bytes(&self) -> &[u8] { unimplemented!() } }' % (it.name, size_item))
                         self.uncovered.append('%s::%s (IntoBytes layout unspecified)' % (mod, it.name))
                     else:
-                        out.emit('impl IntoBytes for %s {\n    open spec fn raw(&self) -> Seq<u8> { %s }\n    #[verifier::external_body] fn as_bytes(&self) -> &[u8] { unimplemented!() }\n}' % (it.name, raw),
+                        out.emit('impl IntoBytes for %s {\n    open spec fn raw(&self) -> Seq<u8> { %s }\n    %s\n    #[verifier::external_body] fn as_bytes(&self) -> &[u8] { unimplemented!() }\n}' % (it.name, raw, size_item),
                                  fn='%s::%s::as_bytes' % (mod, it.name), kind='seam')
                 if had_default and it.name not in ms.defaults:
                     ad = auto_default(it.text[it.decl_off - it.start:], self)
@@ -1024,6 +1049,9 @@ class Splicer:
         top.extend(spec.top)
         if top:
             body = '{\n' + '\n'.join(top) + body[1:]
+        if spec.end:
+            body = body.rstrip()
+            body = body[:-1] + '\n' + '\n'.join(spec.end) + '\n}'
         return body
 
     def emit_clauses(self, fq, spec):
